@@ -145,3 +145,12 @@ Theorem PIPE_permute_legacy_ids :
     LegacySort.sort_legacy LegacyOrder.gen_order_first LegacyOrder.gen_order_last (map rid_of m').
 Proof. exact bridge_permute_legacy. Qed.
 Print Assumptions PIPE_permute_legacy_ids.
+
+
+(* C07 on well-formed trees: since the HashTransformer re-checks the ids (/repo 9a490e0, [hash_check]) the outputs of a
+   successful build have pairwise distinct ids WHATEVER the sort option (the fifo case of C07_ids_unique was refuted by
+   the hash clash before the fix) *)
+Theorem PIPE_ids_unique_wellformed :
+  forall nonstr o t outs, tree_wf t -> build nonstr o t = Ok outs -> distinct_node_ids outs.
+Proof. exact build_ids_unique_wf. Qed.
+Print Assumptions PIPE_ids_unique_wellformed.
